@@ -3,6 +3,7 @@ package fam
 import (
 	"context"
 	"fmt"
+	"io"
 	"os"
 
 	formula "github.com/aundis/formula"
@@ -42,3 +43,19 @@ func Canary() int {
 	fmt.Printf("canary: ok scans=%d nodes=%d\n", scans, nodes)
 	return 0
 }
+
+type byteReader struct {
+	b []byte
+	i int
+}
+
+func (r *byteReader) Read(p []byte) (int, error) {
+	if r.i >= len(r.b) {
+		return 0, io.EOF
+	}
+	n := copy(p, r.b[r.i:])
+	r.i += n
+	return n, nil
+}
+
+func bytesReader(b []byte) *byteReader { return &byteReader{b: b} }
